@@ -142,6 +142,8 @@ type M struct {
 	storageServed, sideLookupAfterClean, crashCount, crashMidCount               int
 	marksOnBest, marksSide, unmarks                                              int
 	subsCount, reaccepted                                                        int
+	blocks                                                                       []*block
+	proofs, corruptProofs, sideProofs, prunedProofs                              int
 	pending                                                                      []model.RawHeader // marked before being seen
 	sideBornBeforeClean                                                          map[*model.Node]bool
 }
